@@ -57,6 +57,8 @@ def run(pid, flt=None, quiet=False):
                     files.update(f['file'] for f in km.get('functions', []))
                     files.add('Cargo.lock')
                 for f in files:
+                    if f.startswith('verif:'):
+                        continue
                     dst = os.path.join(tmp, f)
                     os.makedirs(os.path.dirname(dst), exist_ok=True)
                     shutil.copy(os.path.join(REPO, f), dst)
